@@ -95,6 +95,14 @@ Theorem W_binc_progress : forall (rf : nat) (o : dopts) (lf : nat) (dep : N) (st
 Proof. exact dec_progress. Qed.
 Print Assumptions W_binc_progress.
 
+(* C14 on EVERY input: a value that decodes successfully is nested less than MaxDepth
+   deep (so, with totality, anything nested deeper is an error), wherever it occurs *)
+Theorem W_binc_depth_bound : forall (rf : nat) (o : dopts) (lf : nat) (dep : N) (st : dstate) (inp : list N)
+    (x : item) (r : list N) (st' : dstate),
+  dep < maxdepth o -> dec o rf lf dep st inp = Ok (x, r, st') -> N.of_nat (depth x) + dep < maxdepth o.
+Proof. exact dec_depth_ok. Qed.
+Print Assumptions W_binc_depth_bound.
+
 (* C14: nesting to MaxDepth or beyond is an error of class EDepth (n arrays inside each other) *)
 Theorem W_binc_depth : forall (n : nat) (d : dopts) (dep : N) (rf lf : nat) (dst : dstate) (rest : list N),
   (1 <= n)%nat -> maxdepth d <= N.of_nat n + dep -> (1 <= rf)%nat -> maxdepth d <= N.of_nat rf + dep ->
